@@ -24,10 +24,65 @@ FLOORS = {"quick": {"points_compared": 20000, "spaces": 100, "node_points": 2000
 
 def plan(tier, seed):
     n = 130 if tier == "quick" else 1500
-    return [{"index": i, "seed": [seed, 141, i], "env": {"VERIF_X64": "1" if i % 6 else "0"}} for i in range(n)]
+    cases = [{"index": i, "seed": [seed, 141, i], "env": {"VERIF_X64": "1" if i % 6 else "0"}} for i in range(n)]
+    cases += [{"kind": "exact_inf", "index": i, "seed": [seed, 142, i], "env": {"VERIF_X64": "1" if i % 4 else "0"}} for i in range(n // 5)]
+    return cases
+
+
+def run_exact_inf(case):
+    """Value arrays with -inf entries (states without feasible choice) on grids whose node
+    coordinates are EXACT (integer nodes, step 1): at nodes the stored entry must come back,
+    -inf included, and never NaN."""
+    from vlib import bootstrap, dsl, pipeline
+    import jax
+    import jax.numpy as jnp
+    from lcm.function_representation import get_function_representation
+    from lcm.interfaces import SpaceInfo
+
+    rng = pipeline.case_rng(case)
+    res = {"counters": {}, "maxima": {}, "violations": [], "features": {"exact_inf": True}, "nontrivial": True}
+    cnt = res["counters"]
+    n_dd, n_ct = int(rng.integers(0, 2)), int(rng.integers(1, 4))
+    dd, ct = [f"d{j}" for j in range(n_dd)], [f"w{j}" for j in range(n_ct)]
+    spec = {v: {"kind": "disc", "n": int(rng.integers(2, 4))} for v in dd}
+    for v, n in zip(ct, rng.permutation([2, 3, 4, 5, 6])[:n_ct]):
+        a = int(rng.integers(-3, 4))
+        spec[v] = {"kind": "lin", "start": float(a), "stop": float(a + int(n) - 1), "n": int(n)}
+    gridspecs = {v: dsl.make_grid(spec[v]) for v in spec}
+    shape = tuple(spec[v]["n"] for v in dd + ct)
+    arr = rng.normal(size=shape) * 5
+    holes = rng.random(shape) < rng.uniform(0.15, 0.5)
+    holes.flat[int(rng.integers(0, holes.size))] = False
+    arr = np.where(holes, -np.inf, arr)
+    info = SpaceInfo(axis_names=dd + ct, lookup_info={v: gridspecs[v] for v in dd}, interpolation_info={v: gridspecs[v] for v in ct}, indexer_infos=[])
+    try:
+        f = get_function_representation(info, "vf_arr")
+        K = 64
+        idx = [rng.integers(0, spec[v]["n"], K) for v in dd + ct]
+        pts = {v: (idx[j] if v in dd else (spec[v]["start"] + idx[j]).astype(float)) for j, v in enumerate(dd + ct)}
+        exp = arr[tuple(idx)]
+        got = np.asarray(jax.vmap(lambda *q: f(**dict(zip(dd + ct, q)), vf_arr=jnp.asarray(arr)))(*[jnp.asarray(pts[v]) for v in dd + ct]), dtype=float)
+    except Exception as e:  # noqa: BLE001
+        res["violations"].append({"key": pipeline.exc_key(e, "exact_inf"), "what": pipeline.exc_text(e)})
+        res["status"] = "violated"
+        return res
+    cnt["exact_inf_node_points"] = K
+    cnt["exact_inf_points_with_inf_entry"] = int(np.isinf(exp).sum())
+    tol = 1e-10 if bootstrap.X64 else 1e-4
+    with np.errstate(invalid="ignore"):
+        ok = (got == exp) | (np.abs(got - exp) <= tol * (1 + np.abs(exp)))
+    if not ok.all():
+        k0 = int(np.argmin(ok))
+        res["violations"].append({"key": "node_not_reproduced_next_to_infinite_entries", "what": f"array {shape} with -inf entries, integer-node grids: at node { {v: float(pts[v][k0]) for v in dd + ct} } the function returns {got[k0]!r}, stored entry {exp[k0]!r} ({int((~ok).sum())}/{K} nodes)"})
+    res["sig"] = f"exactinf{shape}"
+    res["sample"] = {"kind": "exact_inf", "array_shape": list(shape), "infinite_entries": int(holes.sum())}
+    res["status"] = "violated" if res["violations"] else "held"
+    return res
 
 
 def run_case(case):
+    if case.get("kind") == "exact_inf":
+        return run_exact_inf(case)
     from vlib import bootstrap, dsl, pipeline
     from vlib.refmodel import ref_coord, ref_map_coordinates
     import jax
